@@ -43,6 +43,9 @@ whose tokens carries a custom verb (`C02_curly_rootverb_witness`: the new scorin
 import Restful.Lemmas.Classify
 import Restful.Lemmas.StateShape
 import Restful.Lemmas.TieRequest
+import Restful.Lemmas.TieImpScore
+import Restful.Lemmas.TieImpMatch
+import Restful.Lemmas.TieImpPath
 namespace Restful
 namespace Props
 variable (E : ReEnv)
@@ -259,3 +262,9 @@ end C02Example
 
 end Props
 end Restful
+
+-- the imperative functions this property's model rests on, tied to their statement-by-statement
+-- translation (tools/goimp, Gen/Imp.lean, regenerated on every run):
+-- also: Restful.TieImp.T2.webservice_score
+-- also: Restful.TieImp.match_tokens
+-- also: Restful.TieImp.T2.tokenize_path
